@@ -21,8 +21,9 @@ class Client(kernel.Actor):
     kind = "client"
     weight_key = "client"
 
-    def __init__(self, world, idx, script, addr=None, slow=False, origin="", close_fails=False):
+    def __init__(self, world, idx, script, addr=None, slow=False, origin="", close_fails=False, late=False):
         self.close_fails = close_fails
+        self.late = late
         self.world = world
         self.sim = world.sim
         self.idx = idx
@@ -204,7 +205,7 @@ class RelayWorld:
         self.env.track_states = True
         self.clock_jumps = []
         self.clients = [Client(self, i, c["script"], addr=c.get("addr"), slow=c.get("slow", False),
-                               origin=c.get("origin", ""), close_fails=c.get("close_fails", False))
+                               origin=c.get("origin", ""), close_fails=c.get("close_fails", False), late=c.get("late", False))
                         for i, c in enumerate(clients)]
         self.message_timeout = message_timeout
         self.rate_limits = rate_limits
@@ -280,11 +281,13 @@ class RelayWorld:
         st = self.env.storage
         if st is None:
             return out
+        owner = getattr(self, "cid_owner", {})
         for cid, subs in list(st.clients.items()):
             s = str(cid)
+            task = owner.get(s)
             addr = s.rsplit("-", 1)[0]
             for c in self.clients:
-                if c.addr == addr:
+                if (task is not None and c.task is task) or (task is None and c.addr == addr):
                     out.setdefault(c.idx, []).extend(list(subs.keys()))
         return out
 
@@ -310,16 +313,82 @@ class RelayWorld:
         limiter = get_rate_limiter(opts)
         self.limiter = limiter
         api = web.NostrAPI(st, rate_limiter=limiter) if self.via_api else None
-        for c in self.clients:
+        # which connection owns which registry entry: ClientID objects are created inside start_client, on the
+        # connection's own task (several connections may come from one address, so the address does not tell)
+        real_cid = web.ClientID
+        owner = self.cid_owner = {}
+
+        class _OwnedClientID(real_cid):
+            __slots__ = ()
+
+            def __init__(cid_self, remote_addr):
+                real_cid.__init__(cid_self, remote_addr)
+                try:
+                    owner[str(cid_self)] = asyncio.current_task()
+                except RuntimeError:
+                    pass
+        web.ClientID = _OwnedClientID
+        # every penalty sleep a connection handler takes: (stamp, task, seconds)
+        import types as _types
+        real_aio = web.asyncio
+        sleeps = self.handler_sleeps = []
+
+        class _AioNS(_types.SimpleNamespace):
+            def __getattr__(ns_self, name):
+                return getattr(real_aio, name)
+
+        async def _sleep(delay, *a, **k):
+            try:
+                sleeps.append((sim.stamp(), asyncio.current_task(), delay))
+            except RuntimeError:
+                pass
+            return await real_aio.sleep(delay, *a, **k)
+        web.asyncio = _AioNS(sleep=_sleep)
+
+        def _restore():
+            web.ClientID = real_cid
+            web.asyncio = real_aio
+        self._restore_cid = _restore
+        def connect(c):
             sim.add_actor(c)
             if api is not None:
                 # the accept path: origin blacklist, ACCEPT rate limit, ws.accept(), then start_client
                 c.task = asyncio.ensure_future(api.on_websocket(_StubReq(c), _StubWS(c)))
-                continue
+                return
             c.task = asyncio.ensure_future(web.start_client(
                 st, c.ws_send, c.ws_recv, c.ws_close, self.log,
                 message_timeout=self.message_timeout, rate_limiter=limiter,
                 origin=c.origin, remote_addr=c.addr))
+
+        class _LateConnect(kernel.Actor):
+            """a connection that is only opened once everything else has gone quiet for the first time (the
+            others may be asleep in a penalty): barrier semantics, so it precedes any advance of virtual time"""
+            kind = "client"
+            weight_key = "client"
+            is_barrier = True
+
+            def __init__(a_self, c):
+                a_self.c = c
+                a_self.done = False
+
+            def ready(a_self):
+                return not a_self.done
+
+            def label(a_self):
+                return "c%d:connect" % a_self.c.idx
+
+            def fire(a_self):
+                a_self.done = True
+                sim.remove_actor(a_self)
+                connect(a_self.c)
+
+        never = asyncio.get_event_loop().create_future()
+        for c in self.clients:
+            if getattr(c, "late", False):
+                c.task = never          # placeholder until it connects
+                sim.add_actor(_LateConnect(c))
+            else:
+                connect(c)
         if self.registry_hook:
             sim.hooks_after_step.append(self.registry_hook)
         def in_command():
@@ -388,5 +457,7 @@ class RelayWorld:
         try:
             kernel.run_sim(self.sim, self.main)
         finally:
+            if getattr(self, "_restore_cid", None):
+                self._restore_cid()
             self.env.cleanup()
         return self
